@@ -5,7 +5,7 @@ trace validation), known findings, evidence files and the verdict protocol.
 Exit codes: 0 = property held on everything explored (known findings are
 printed as KNOWN-FINDING lines), 1 = VIOLATION, 2 = harness failure (never a
 verdict)."""
-import json, os, re, shutil, subprocess, sys, tempfile, time, glob
+import json, os, random, re, shutil, subprocess, sys, tempfile, time, glob
 
 VERIF = os.path.dirname(os.path.dirname(os.path.abspath(__file__)))
 REPO = os.environ.get("VERIF_REPO", "/repo")
@@ -213,7 +213,81 @@ def tlc_trace(spec_files, module, trace_path, work, timeout=1800, trace_name="tr
         # a trace the front end cannot consume is a harness/spec problem, never a verdict
         raise HarnessError("trace validation of %s did not consume the whole trace:\n%s" % (module, r["out"][-3000:]))
     shutil.rmtree(d, ignore_errors=True)
+    if os.environ.get("VERIF_SELFTEST") and not os.environ.get("VERIF_SELFTEST_INNER"):
+        binding_selftest(spec_files, module, trace_path, work, trace_name, extra_files, extra_constants)
     return viol, r
+
+
+def binding_selftest(spec_files, module, trace_path, work, trace_name, extra_files, extra_constants, k=16, max_lines=3000):
+    """Binding demonstrated, not assumed (VERIF_SELFTEST=1): a prefix of the trace just recorded from the real code is
+    altered in one place - one field of one event changed, or one event removed - and given to the same monitor.  A monitor
+    that is bound to what the code did answers differently (other violations, or the trace is not consumed) for the fields
+    its rules speak of.  The outcome per alteration is written to .work/selftest/<module>.json; it is a report, not a verdict."""
+    lines = open(trace_path).read().splitlines()
+    cut = len(lines)
+    if cut > max_lines:
+        cut = max_lines
+        while cut > 1 and '"ev":"Reset"' not in lines[cut] and '"ev": "Reset"' not in lines[cut]:
+            cut -= 1
+        if cut <= 1:
+            cut = max_lines
+    lines = lines[:cut]
+    os.environ["VERIF_SELFTEST_INNER"] = "1"
+    rnd = random.Random(int(os.environ.get("VERIF_SEED", "1")) * 7919 + len(lines))
+
+    def run(ls, tag):
+        pth = os.path.join(work, "selftest-%s-%s.ndjson" % (module, tag))
+        open(pth, "w").write("\n".join(ls) + "\n")
+        try:
+            v, _ = tlc_trace(spec_files, module, pth, work, timeout=1800, trace_name=trace_name, extra_files=extra_files, extra_constants=extra_constants)
+            out = sorted((x["line"], tuple(sorted(x["names"]))) for x in v)
+        except HarnessError as e:
+            out = "not consumed / evaluation error"
+        os.remove(pth)
+        return out
+
+    try:
+        base = run(lines, "base")
+        report = {"module": module, "trace_lines": len(lines), "baseline_violations": len(base) if isinstance(base, list) else base, "alterations": []}
+        for i in range(k):
+            li = rnd.randrange(len(lines))
+            ev = json.loads(lines[li])
+            if i % 4 == 3:
+                what = {"kind": "event removed", "line": li + 1, "ev": ev.get("ev", ev.get("site", "?"))}
+                ls = lines[:li] + lines[li + 1:]
+            else:
+                paths = []
+
+                def walk(o, pre, depth):
+                    if isinstance(o, dict):
+                        for kk, vv in o.items():
+                            walk(vv, pre + [kk], depth + 1)
+                    elif isinstance(o, list):
+                        for ii, vv in enumerate(o[:6]):
+                            walk(vv, pre + [ii], depth + 1)
+                    elif isinstance(o, (bool, int)) and pre and pre[0] not in ("id", "ev"):
+                        paths.append(pre)
+                walk(ev, [], 0)
+                if not paths:
+                    continue
+                pa = rnd.choice(paths)
+                o = ev
+                for kk in pa[:-1]:
+                    o = o[kk]
+                old = o[pa[-1]]
+                o[pa[-1]] = (not old) if isinstance(old, bool) else old + rnd.choice([1, -1, 7])
+                what = {"kind": "field changed", "line": li + 1, "ev": ev.get("ev", ev.get("site", "?")), "field": ".".join(str(x) for x in pa), "from": old, "to": o[pa[-1]]}
+                ls = lines[:li] + [json.dumps(ev, separators=(",", ":"))] + lines[li + 1:]
+            res = run(ls, "m%d" % i)
+            what["monitor_answers_differently"] = res != base
+            report["alterations"].append(what)
+        report["differently"] = sum(1 for a in report["alterations"] if a["monitor_answers_differently"])
+        d = os.path.join(WORK, "selftest")
+        os.makedirs(d, exist_ok=True)
+        json.dump(report, open(os.path.join(d, module + ".json"), "w"), indent=1)
+        print("SELFTEST %s: %d of %d single alterations of the recorded trace change the monitor's answer" % (module, report["differently"], len(report["alterations"])), file=sys.stderr)
+    finally:
+        del os.environ["VERIF_SELFTEST_INNER"]
 
 
 def trace_samples(trace_path, n=3, ev="Reset"):
